@@ -440,3 +440,16 @@ for _r in ("Gt", "Lt", "Ge", "Le", "Eq", "Ne"):
     core.TERM_AXIOMS["sp." + _r] = _rel_axiom
 core.TERM_AXIOMS["sp.Pow"] = lambda app: [sp_cls(app) == SP_CLASSES.index("Pow")]
 core.TERM_AXIOMS["sp.Symbol"] = lambda app: [sp_cls(app) == SP_CLASSES.index("Symbol")]
+
+
+@external("collections.defaultdict")
+def _defaultdict(ctx, st, factory=None):
+    def make(decl):
+        ty = parse_ty(decl)  # declared as Dict[K,Set[E]]
+        return I.DefaultDict(ty.args[0], ty.args[1].args[0])
+    return I.PendingTyped("defaultdict(set)", make)
+
+
+@external("typing.cast")
+def _cast(ctx, st, ty, v):
+    return v
